@@ -162,6 +162,8 @@ namespace bloch::runtime {
         Expression* initializer = nullptr;
         bool hasInitializer = false;
         int arraySize = -1;
+        // 'T[N] f' with N a name rather than a literal: evaluated when the field is created
+        Expression* arraySizeExpr = nullptr;
         int line = 0;
         int column = 0;
         size_t offset = 0;
